@@ -286,9 +286,15 @@ def run(repo, rep, tier):  # noqa: F811 -- round-5 shape rules appended to the r
     if getattr(rep, "borrowed", False):
         return
     from ..core import round5 as _r5
+    from ..core.report import Only as _O5
+    from . import c07 as _c07b
+    _c07b._r07_2(repo, _O5(rep, {"R07.2"}))
     _r5.union_guard_class(repo, rep, "R11.12")
 
 
 _ADDR5B = " Borrowed: R11.12: pack_union reduces every member type named in the `value.__class__ is/in (...)` guard to its runtime class with get_type_origin() first (no value's class is a generic alias, so a guard naming List[int] never matches)."
 EXPLANATION += _ADDR5B
 LEVEL_TEXT += _ADDR5B
+_ADDR5D = ' Borrowed: R07.2 (the field block stores the decoded value where the constructor call reads it).'
+EXPLANATION += _ADDR5D
+LEVEL_TEXT += _ADDR5D
